@@ -158,6 +158,14 @@ def gen_case(rng, force_circular=None) -> dict:
                 genes[d]["core"].append(product)
         protos.append({"product": product, "core": core, "extent": extent, "sideloaded": sideloaded,
                        "left": left, "right": right, "spec": spec})
+    # the same stretch found by a rule and handed in from outside under the same product name: two protoclusters with
+    # one extent, core and product
+    originals = [p for p in protos if not p["sideloaded"]]
+    if originals and (length // STEP + len(protos)) % 4 == 0:
+        twin = dict(originals[0], sideloaded=True, twin=True)
+        if not (circular and ((twin["core"][-1][1] + twin["right"]) % length == 0
+                              or (twin["core"][0][0] - twin["left"]) % length == 0 and len(twin["extent"]) > 1)):
+            protos.append(twin)
     for p in protos:
         p.pop("spec")
 
